@@ -39,6 +39,7 @@ const (
 	kfMapRoot     = "C17-envmap-omits-map-root-data"
 	kfPromotedEnv = "C17-envmap-omits-promoted-fields"
 	kfPromotedTag = "C17-promoted-field-json-tag"
+	kfTagOverName = "C17-envmap-tag-shadows-field-name"
 )
 
 // avoider returns the callback the generators hand to invalidSteps: it answers whether the
@@ -68,10 +69,12 @@ type RootD struct {
 	Hidden string        `json:"hidden,omitempty"`
 	List   []int         `json:"list,omitempty"`
 	SubA   string        `json:"sub_a,omitempty"`
-	Short  string        `json:"short,omitempty"` // field tagged "id"
-	Long   string        `json:"long,omitempty"`  // field tagged "ID"
-	Token  string        `json:"token,omitempty"` // field tagged "-"
-	Dash   string        `json:"dash,omitempty"`  // field tagged "-,"
+	Short  string        `json:"short,omitempty"`  // field tagged "id"
+	Long   string        `json:"long,omitempty"`   // field tagged "ID"
+	Token  string        `json:"token,omitempty"`  // field tagged "-"
+	Dash   string        `json:"dash,omitempty"`   // field tagged "-,"
+	Type   string        `json:"type_f,omitempty"` // field Type, tagged "Kind"
+	KindF  string        `json:"kind_f,omitempty"` // field Kind, tagged "kind"
 	Any    *VD           `json:"any,omitempty"`
 	Row    *VD           `json:"row,omitempty"`  // kinds "row" / "prow": the root value is this Row / a pointer to it
 	Data   *VD           `json:"data,omitempty"` // kind "data" / "pdata": the root value is this value / a pointer to it
@@ -112,13 +115,13 @@ type SeqCase struct {
 // The universes hold the names the ops bind plus names that are only ever read: both tags of the
 // pair "id"/"ID", and wrong-case spellings of tags and field names ("TAGGED", "tAGGED", "Id",
 // "PLAIN", "SUB"), which are neither a field name nor a tag and so must be absent unless bound.
-var bigUniverse = []string{"x", "y", "Plain", "tagged", "Tagged", "hidden", "List", "sub", "Sub", "any", "id", "ID", "Id", "TAGGED", "tAGGED", "PLAIN", "SUB", "ANY", "Title", "Note", "note", "Extra", "Token", "Dash", "TOKEN"}
+var bigUniverse = []string{"x", "y", "Plain", "tagged", "Tagged", "hidden", "List", "sub", "Sub", "any", "id", "ID", "Id", "TAGGED", "tAGGED", "PLAIN", "SUB", "ANY", "Title", "Note", "note", "Extra", "Token", "Dash", "TOKEN", "Type", "Kind", "kind"}
 var rowUniverse = []string{"x", "Plain", "ID", "Title", "Note", "note", "Extra", "hidden"}
-var smallUniverse = []string{"x", "Plain", "tagged", "hidden", "id", "ID", "TAGGED", "Token", "Dash"}
+var smallUniverse = []string{"x", "Plain", "tagged", "hidden", "id", "ID", "TAGGED", "Token", "Dash", "Type", "Kind", "kind"}
 
 func (r RootD) data() any {
 	mk := func() rootT {
-		t := rootT{Plain: r.Plain, Tagged: r.Tagged, hidden: r.Hidden, Sub: subT{A: r.SubA}, Short: r.Short, Long: r.Long, Token: r.Token, Dash: r.Dash}
+		t := rootT{Plain: r.Plain, Tagged: r.Tagged, hidden: r.Hidden, Sub: subT{A: r.SubA}, Short: r.Short, Long: r.Long, Token: r.Token, Dash: r.Dash, Type: r.Type, Kind: r.KindF}
 		if r.List != nil {
 			t.List = append([]int{}, r.List...)
 		}
@@ -396,7 +399,10 @@ func compareStack(tag string, s *vuego.Stack, m *model, names []string, envSkip 
 		if k == "-" {
 			continue // tag text of json:"-" fields: unspecified
 		}
-		want, _, wok := m.lookup(k)
+		want, src, wok := m.lookup(k)
+		if envSkip[k] && src == "field" {
+			continue
+		}
 		emode := exact
 		if isStructVal(want) {
 			emode = presence
@@ -433,6 +439,9 @@ func compareCopy(tag string, s *vuego.Stack, m *model, names []string, envSkip m
 	var plain []string
 	for _, n := range names {
 		want, src, wok := m.lookup(n)
+		if envSkip[n] && src == "field" {
+			continue // a Copy is built over EnvMap: the open finding's wrong entry becomes a binding of the copy
+		}
 		if wok && src == "field" && isStructVal(want) {
 			got, gok := s.Lookup(n)
 			if err := agree(fmt.Sprintf("%s Lookup(%q)", tag, n), got, gok, want, wok, presence); err != nil {
@@ -680,6 +689,9 @@ func checkSeq(c SeqCase) error {
 			}
 			if cur > 0 && pathThroughStruct(models[cur], op.N) {
 				break // copies hold the converted form of struct-valued root fields
+			}
+			if _, src, bound := models[cur].lookup(op.N); cur > 0 && bound && src == "field" && envSkip[op.N] {
+				break // region of an open finding: a Copy is built over EnvMap and inherits its wrong entry
 			}
 			stop := 0
 			if op.K == "foreach" {
@@ -989,6 +1001,10 @@ func TestProp(t *testing.T) {
 					if root.Row != nil {
 						c.Names = rowUniverse
 					}
+					if (root.Kind == "struct" || root.Kind == "ptr") && known.Open(kfTagOverName) {
+						c.EnvSkip = append(c.EnvSkip, "Kind") // region of the open finding
+						rec.Excluded(kfTagOverName)
+					}
 					if root.Data != nil && root.Data.K == "eroot" {
 						c.Names = eNames(known.Open(kfPromotedTag))
 						if known.Open(kfPromotedTag) {
@@ -998,6 +1014,10 @@ func TestProp(t *testing.T) {
 							// region of the open finding: EnvMap agreement for promoted fields
 							c.EnvSkip = ePromoted
 							rec.Excluded(kfPromotedEnv)
+						}
+						if known.Open(kfTagOverName) {
+							c.EnvSkip = append(append([]string(nil), c.EnvSkip...), "Code")
+							rec.Excluded(kfTagOverName)
 						}
 					} else if root.Kind == "data" && known.Open(kfMapRoot) {
 						// region of the open finding: EnvMap agreement for names bound only by the
